@@ -1102,8 +1102,11 @@ impl Gen {
         let mut asks = vec![];
         for _ in 0..self.rng.below(4) {
             let k = self.legacy_key();
-            let conv = !info.convertible_base_denoms.is_empty() && self.rng.pct(40);
-            let base = if conv { self.rng.pick(&info.convertible_base_denoms).clone() } else { info.base_denom.clone() };
+            // a convertible ask is denominated in a convertible denomination other than the base
+            let real_convs: Vec<String> =
+                info.convertible_base_denoms.iter().filter(|d| **d != info.base_denom).cloned().collect();
+            let conv = !real_convs.is_empty() && self.rng.pct(40);
+            let base = if conv { self.rng.pick(&real_convs).clone() } else { info.base_denom.clone() };
             let size = inc.saturating_mul(self.lots().min(1 << 40));
             let class = if !conv {
                 AskOrderClass::Basic
